@@ -396,6 +396,16 @@ func checkC16(c *runCtx) {
 	tails := []string{"", "raddr 10.0.0.1 rport 9", "raddr 10.0.0.1 rport 0", "raddr 0.0.0.0 rport 0", "raddr 10.0.0.1", "raddr", "raddr 10.0.0.1 rport", "raddr 10.0.0.1 rport 65536",
 		"raddr 10.0.0.1 xport 1", "tcptype active", "tcptype passive", "tcptype so", "tcptype bogus", "tcptype", "tcptype ", "generation 0", "generation 0 ufrag ab", "k", "k ", "k  k2 v", " k v",
 		"k \x00", "k \r", "k \n", "k €", "k \xff", "\x80 v", "raddr 10.0.0.1 rport 9 tcptype active generation 0", "tcptype active tcptype passive", "generation 0 generation 1", "rport 9", "raddr x rport 9 k v"}
+	// the related-address tail position by position (every token may also be empty, i.e. two separators in a row)
+	for _, ra := range []string{"10.0.0.1", "", "0.0.0.0", "::1", "x", "\t"} {
+		for _, key := range []string{"rport", "", "xport"} {
+			for _, rp := range []string{"9", "0", "", "65535", "65536", "x"} {
+				for _, sfx := range []string{"", " k v", " tcptype active", " "} {
+					tails = append(tails, "raddr "+ra+" "+key+" "+rp+sfx)
+				}
+			}
+		}
+	}
 	maxOdd := 2
 	if !c.quick() {
 		maxOdd = 3
